@@ -234,6 +234,18 @@ def run_case(inp):
             m_none = np.asarray(ZNCCAlignment(tmpl).get_missing_wedge_mask(quat)).astype(bool)
         if not np.array_equal(m_tuple, m_model):
             V("entry-points", "tuple and model object give different masks")
+        # model objects of every kind keep their geometry when handed to an alignment model
+        rot_ = Rotation.from_quat(quat)       # the same (float32) quaternion the alignment model receives
+        a2, b2 = inp["range2"]
+        for label, tm in (("single_axis(range, 'x')", single_axis((a, b), "x")), ("single_axis(range, 'y')", single_axis((a, b), "y")),
+                          ("dual_axis", dual_axis((a, b), (a2, b2))), ("no_wedge", no_wedge())):
+            with warnings.catch_warnings():
+                warnings.simplefilter("ignore")
+                via_model = np.asarray(ZNCCAlignment(tmpl, tilt=tm).get_missing_wedge_mask(quat)).astype(bool)
+            direct = np.asarray(tm.create_mask(rot_, shape)).astype(bool)
+            if via_model.shape != direct.shape or not np.array_equal(via_model, direct):
+                V("entry-points", f"an alignment model built with tilt={label} uses a different mask than the tilt model itself "
+                                  f"({int((via_model != direct).sum())} bins)")
         if not np.array_equal(m_tuple, m_legacy):
             V("entry-points", f"legacy tilt_range= keyword gives a different mask than tilt= "
                               f"({int((m_tuple != m_legacy).sum())} bins; all-ones: {bool(m_legacy.all())})")
